@@ -95,10 +95,10 @@ Print Assumptions C06_no_target_lost_by_faults.
    were both scraped three times exactly the copy on the less loaded shard (with equal loads: on the front shard) is
    left after this cycle's walk, in whatever order the shards are visited; C05_handover_completes is the same for a
    pending hand-over, C06_no_target_in_transfer_for_ever for a transfer without partner *)
-Theorem C06_duplicate_resolved_in_one_cycle : forall o active kw kl h cw cl p,
+Theorem C06_duplicate_resolved_in_one_cycle : forall o active kw kl h cw cl,
   kw <> kl -> is_active active h = true ->
   c_state cw = Normal /\ (min_wait <= c_times cw)%N -> c_state cl = Normal /\ (min_wait <= c_times cl)%N ->
-  nodup_plan p ->
+  forall p, nodup_plan p ->
   si_ok (nth_si p kw) = true -> si_ok (nth_si p kl) = true ->
   afind h (scr_of (nth_si p kw)) = Some cw -> afind h (scr_of (nth_si p kl)) = Some cl ->
   (forall j, j <> kw -> j <> kl -> afind h (scr_of (nth_si p j)) = None) ->
